@@ -29,6 +29,118 @@ func bytesToU64s(b []byte) []uint64 {
 	return r
 }
 
+// Several call shapes: StrCmpUpto is inlined into its caller, and what lies next to its string header
+// depends on the caller's frame layout.
+
+//go:noinline
+func strCmpUptoCallA(a string, b []byte) (r string) {
+	defer func() {
+		if x := recover(); x != nil {
+			r = "PANIC"
+		}
+	}()
+	return strconv.Itoa(bitstr.StrCmpUpto(a, b))
+}
+
+//go:noinline
+func strCmpUptoCallB(s string, e []byte) (r string) {
+	defer func() {
+		if x := recover(); x != nil {
+			r = fmt.Sprint("PANIC: ", x)
+		}
+	}()
+	return fmt.Sprint(bitstr.StrCmpUpto(s, e))
+}
+
+//go:noinline
+func strCmpUptoCallC(a string, b []byte) (r string) {
+	defer func() {
+		if x := recover(); x != nil {
+			r = "PANIC"
+		}
+	}()
+	var pad [4]uint64
+	pad[len(a)&3] = uint64(len(b))
+	v := bitstr.StrCmpUpto(a, b)
+	if pad[len(a)&3] != uint64(len(b)) {
+		return "?"
+	}
+	return strconv.Itoa(v)
+}
+
+var strCmpUptoFn = bitstr.StrCmpUpto
+
+//go:noinline
+func strCmpUptoCallD(a string, b []byte) (r string) {
+	defer func() {
+		if x := recover(); x != nil {
+			r = "PANIC"
+		}
+	}()
+	return strconv.Itoa(strCmpUptoFn(a, b)) // not inlined
+}
+
+// strCmpUptoCall runs every call shape; with poisonStack the stack region the callee is about to use is
+// filled with a known pattern immediately before each call
+func strCmpUptoCall(a string, b []byte, poisonStack bool, pat uint64) string {
+	r := ""
+	for i, f := range []func(string, []byte) string{strCmpUptoCallA, strCmpUptoCallB, strCmpUptoCallC, strCmpUptoCallD} {
+		if poisonStack {
+			poisonSink += poison(pat)
+		}
+		x := f(a, b)
+		if strings.HasPrefix(x, "PANIC") {
+			x = "PANIC"
+		}
+		if i == 0 {
+			r = x
+		} else if x != r {
+			return r + "|" + x
+		}
+	}
+	return r
+}
+
+var poisonSink uint64
+
+// poison fills the stack region that the next call will use with a known pattern
+//
+//go:noinline
+func poison(p uint64) uint64 {
+	var a [2048]uint64
+	for i := range a {
+		a[i] = p
+	}
+	s := uint64(0)
+	for i := range a {
+		s += a[i]
+	}
+	return s
+}
+
+// strCmpUptoOn runs StrCmpUpto with different bytes lying next to its arguments on the stack:
+// a pure function of (a, b) must not notice
+func strCmpUptoOn(fresh bool, a string, b []byte) string {
+	if !fresh {
+		return strCmpUptoCall(a, b, false, 0)
+	}
+	r := ""
+	for i, p := range []uint64{0, 3, ^uint64(0)} {
+		x := strCmpUptoCall(a, b, true, p)
+		if i == 0 {
+			r = x
+		} else if x != r {
+			return r + "|" + x
+		}
+	}
+	ch := make(chan string)
+	go func() { ch <- strCmpUptoCall(a, b, false, 0) }()
+	if x := <-ch; x != r {
+		return r + "|" + x
+	}
+	return r
+}
+
 func init() {
 	// ---- bitstr ----
 	reg("bsnew", func(a []string) string {
@@ -46,11 +158,17 @@ func init() {
 		bcopy := append([]byte(nil), b...)
 		acopy := append([]byte(nil), pa...)
 		r1 := bitstr.CmpUpto(pa, b)
-		r2 := bitstr.StrCmpUpto(string(pa), b)
+		// StrCmpUpto reinterprets the string header through unsafe: run it on this goroutine and on a
+		// fresh one (a fresh stack holds different bytes next to the header)
+		r2 := strCmpUptoOn(false, string(pa), b)
+		r3 := strCmpUptoOn(true, string(pa), b)
 		if string(b) != string(bcopy) || string(pa) != string(acopy) {
 			return "INPUT-MODIFIED"
 		}
-		return fmt.Sprintf("%d,%d", r1, r2)
+		if r3 != r2 {
+			return fmt.Sprintf("%d,%s(other-stack-contents:%s)", r1, r2, r3)
+		}
+		return fmt.Sprintf("%d,%s", r1, r2)
 	})
 
 	// ---- bitword ----
